@@ -94,14 +94,20 @@ CLAIMED = {
         "Format.decodeAny f = the bytes handed out. unzck's glue is corresponded, not proved.",
    technique="Lean 4 proof (loop invariant of the reader as a step machine, induction over iterations / calls / call sequences, refinement to the independent reference decoder) + differential correspondence against that decoder"),
  'C14': dict(
-   text="Proof (Lean 4) on the model of zck_get_chunk_data / zck_get_chunk_comp_data: once the dictionary is loaded (or absent) a request's "
-        "result and resulting context are identical whatever the previous offset, pending stored bytes, position in the previous chunk, "
-        "current chunk, end-of-data marker, decoded buffer and chunk checksum context were; stored-data requests return exactly the bytes at "
-        "the chunk's extent. Equality with the chunk's slice of the content is evaluated against the reference decoder for ALL request "
-        "sequences of length <= 3 (exhaustive) and random long ones.",
-   design_ref="DESIGN.md section 7 C14",
-   note="Partial: 'returns exactly the chunk's content' relies on the correspondence runs (valid files only); the theorem is state-independence.",
-   technique="Lean 4 proof (definitional re-establishment of reader state) + exhaustive short request sequences as differential correspondence"),
+   text="Proof (Lean 4) on the model of zck_get_chunk_data / zck_get_chunk_comp_data: (1) history independence — once the dictionary is "
+        "loaded (or absent) a request's result and resulting context are identical whatever the previous offset, pending stored bytes, "
+        "position in the previous chunk, current chunk, end-of-data marker, decoded buffer and chunk checksum context were; (2) content — on a "
+        "well-formed file (every index entry present, verified, of declared length) a data request for chunk k >= 1 with a buffer of the "
+        "declared size returns that size and exactly the chunk's content (its stored bytes decoded with the dictionary the format "
+        "prescribes), from ANY context with the dictionary loaded and whatever the running data checksum was fed before "
+        "(chunk_data_exact, Props/C14Exact.lean: the reader's loop invariant started inside chunk k); stored-data requests return exactly "
+        "the bytes at the chunk's extent. The implementation is tied to the model by ALL request sequences of length <= 3 (exhaustive) and "
+        "random long ones, judged against the reference decoder.",
+   design_ref="DESIGN.md section 7a (C14) and section 7 C14",
+   note="chunk_data_exact is stated for the data chunks (k >= 1): a request for the dictionary chunk itself is decoded WITH the loaded "
+        "dictionary by the code (harmless for zstd, not expressible for an arbitrary codec); that case and requests with other buffer sizes "
+        "are covered by the correspondence runs only.",
+   technique="Lean 4 proof (definitional re-establishment of reader state; reader loop invariant with untracked running checksum, prefix argument on the accounting equation) + exhaustive short request sequences as differential correspondence"),
  'C09': dict(
    text="Partial proof (Lean 4) on the model of validate_checksums / zck_validate_data_checksum.  PROVED for EVERY on-disk state of a "
         "file with data (any chunks absent, zeroed or garbage, truncated anywhere, over-long; scanLoop_exact, find_valid_exact, by "
@@ -114,11 +120,15 @@ CLAIMED = {
         "data section hash to the data checksum (when every chunk was marked valid every read was complete, so the running checksum was "
         "fed exactly the data section); if only the data checksum fails the verdict is failure and ALL chunks are marked failed; if a "
         "chunk fails the marks are those of the chunk loop.  Detached header (scan_detached, verdict_detached): only the first entry is "
-        "scanned, every other mark is left alone.  NOT proved: 'reads after validations = reads without' beyond the restored state "
-        "(the reader model never reads the marks, but that it is insensitive to them is not a theorem); this and file immutability are "
-        "evaluated against the reference decoder on all 3^n damage subsets, all truncation lengths, validations before AND after reads.",
+        "scanned, every other mark is left alone.  READS AFTER VALIDATIONS (Props/C09Reads.lean): any sequence of validations on a context that has not been read "
+        "from changes only the marks, the chunk checksum context, the offset and the running data checksum (validateChecksums_ctx), so the "
+        "reader's invariant holds again (validations_fresh, fresh_P) and reads started there satisfy the same theorems as reads from a fresh "
+        "open: reads_after_validations_sound (never other content than the decoded file) and reads_after_validations_complete (on a "
+        "well-formed file every read schedule succeeds with the exact content and close succeeds).  NOT proved: validations AFTER reads on one "
+        "context, file immutability; these are evaluated against the reference decoder on all 3^n damage subsets, all truncation lengths, "
+        "validations before AND after reads.",
    design_ref="DESIGN.md section 7a",
-   note="Partial: per-chunk classification, overall verdict, override and the detached rule are proved for all on-disk states; read-after-validate beyond the restored reader state is checked. "
+   note="Partial: per-chunk classification, overall verdict, override and the detached rule are proved for all on-disk states; reads started after validations are proved to behave as from a fresh open; validate-after-read histories are checked. "
         "Hypothesis of the classification theorem: an empty dictionary entry has no stored bytes (the scan marks it valid unconditionally).",
    technique="Lean 4 proof (induction over the chunk index with an exact-or-EOF read position invariant; the loop's flag as a conjunction over the marks; the running checksum as the data section) + differential correspondence "
              "over damage subsets, truncations and validate/read sequences"),
@@ -135,19 +145,23 @@ CLAIMED = {
         "determinism (checked on real outputs, not proved). Termination of the re-examination loop is not proved.",
    technique="Lean 4 proof (accumulator/append lemmas over the per-byte chunker, induction over content) + differential correspondence and cross-run comparison"),
  'C01': dict(
-   text="Proof (Lean 4) of both halves on the models, composition checked: WRITE side — for every legal configuration and every sequence of "
+   text="Proof (Lean 4) on the models, in three parts that compose: (1) WRITE — for every legal configuration and every sequence of "
         "write/end-chunk calls (manual or automatic) the data chunks of the closed file concatenate to exactly the bytes written (nothing "
-        "lost - incl. a final chunk below the minimum -, duplicated or reordered). READ side (Props/C01Stream.lean, read_back) — for every "
-        "well-formed file (running offsets, every index entry present / verified / of declared length, data checksum) and EVERY sequence of "
-        "read buffer sizes no read fails, the loop never runs out of fuel (explicit measure), every read returns what it reports and at most "
-        "what was asked, a short read has delivered exactly the contents of the data chunks in index order, and zck_close then succeeds. That "
-        "the file the writer produces is well-formed in that sense (header creation, compression) is exercised end to end: every WRITE case "
-        "re-opens, validates and reads back the produced file; the zck/unzck tools are run on inputs with the split string at every alignment "
-        "around 32 KiB block edges, and the real tool's chunk structure is compared with the Lean model of its split scanner.",
-   design_ref="DESIGN.md section 7a (reader round trip) and section 7 C01",
-   note="Partial: the link 'writer output is WF' (header_create / index serialisation round trip through the parser) is checked per case, not "
-        "proved; write-path termination of the automatic chunker and the scanner's byte-preservation are not theorems; codec round trip assumed.",
-   technique="Lean 4 proof (accounting invariant over write calls; reader loop invariant + termination measure over all read schedules) + differential correspondence incl. real CLI tools"),
+        "lost - incl. a final chunk below the minimum -, duplicated or reordered): W_structure. (2) HEADER — the model of zck_init_read opens "
+        "what the model of header_create serialises, followed by any data section, and reports exactly the serialised fields with the entries "
+        "numbered by position and start offsets the running sums (openFile_header, Props/C01Encode.lean); a file laid out as zck_close lays "
+        "it out whose index entries describe their chunks (sizes, checksum of the stored bytes, codec round trip) is well-formed for the "
+        "reader (written_WF). (3) READ — on a well-formed file EVERY sequence of read buffer sizes succeeds, the loop's fuel suffices "
+        "(explicit measure), a short read has delivered exactly the contents of the data chunks in order and zck_close succeeds "
+        "(read_back); together write_read_roundtrip (Props/C01Written.lean). Tied to the code: every WRITE case re-opens, validates and "
+        "reads back the produced file, the header bytes the implementation wrote are compared with Encode.header applied to the fields the "
+        "reference parser reads out of them (re-serialisation identity) and the file length with header + data; the zck/unzck tools run on "
+        "inputs with the split string at every alignment around 32 KiB block edges, chunk structure compared with the model of the scanner.",
+   design_ref="DESIGN.md section 7a (reader round trip, header round trip) and section 7 C01",
+   note="Partial: the per-chunk work of the writer (compress, hash, index entry — the hypotheses WOk of written_WF) is not modelled as a "
+        "step machine but stated as what each entry must satisfy; termination of the automatic chunker and the scanner's byte-preservation "
+        "are not theorems; codec round trip (decomp (comp x) = x) assumed.",
+   technique="Lean 4 proof (accounting invariant over write calls; serialiser/parser round trip by positional decoding; reader loop invariant + termination measure over all read schedules) + differential correspondence incl. re-serialisation identity and real CLI tools"),
  'C03': dict(
    text="PARTIAL proof (Lean 4): the model of the header/index parser (read_lead, read_header_from_file, read_preface incl. the "
         "optional-element loop, read_index/index_read, read_sig) performs no read outside the header buffer for EVERY byte string and pin "
